@@ -355,7 +355,8 @@ PROPS = {
    technique='exhaustive enumeration of all 2^24 8-bit RGB triples (and 16-bit lattices) through the integer YCoCg-R pair on every carrier type, of consecutive-float pairs on dense grids (all floats of [0,1] in the thorough tier) through the sRGB pair for five gammas, and of the 8-bit RGB cube / hue grids through HSV',
    text='rgb2YCoCgR/YCoCgR2rgb exactly lossless on all 2^24 triples for u8,i16,u16,i32,u32,i64 carriers; sRGB pair: range, fixes 0 and 1, monotone between adjacent grid points, mutual inverse within the bound derived from the curve constants, alpha bits untouched; HSV: hue in [0,360), round trips both ways; float YCoCg round trips; saturation/luminosity weights.',
    rule='ALL 2^24 triples; grids k/16384 + toe k/262144 + both breakpoints +-2ulp (thorough: every consecutive float pair in [0,1]); hue 360k/3600 + sector boundaries +-2ulp.'),
- 'C01': dict(src='drivers/c01.cpp', level='exploration', parts=15, flags=['-O1'], configs=['default', 'clang'], configs_quick=['default'],
+ 'C01': dict(src='drivers/c01.cpp', level='exploration', parts=15, flags=['-O1'], configs=['default', 'clang', 'intr_sse2_defaligned', 'intr_avx2_defaligned'], configs_quick=['default', 'intr_sse2_defaligned'],   # *_defaligned: highp/mediump/lowp name the aligned qualifiers, i.e. the SIMD kernels are compared with the scalar overloads
+  
    technique='exhaustive enumeration of the alphabet (component-wise function or operator) x (overload shape) x (vector length 1-4) x (element type) x (qualifier) with complete products of a special-value lattice as inputs, every tuple placed in every lane; oracle = the scalar overload of GLM itself on each component',
    text='Every component-wise function and operator of common/exponential/trigonometric/integer/vector_relational and their ext/gtc/gtx twins is instantiated for every length 1-4, highp/mediump/lowp and every element type it accepts (float, double, int, uint, i8, u8, i16, u16, i64, u64, bool), in every overload shape (vec-vec, vec-scalar, scalar-vec, vec-vec1, vec1-vec, scalar-edge forms, out-parameter forms, compound assignment, ++/--), and evaluated on the complete n-ary product of the special-value lattice; component i of the vector result is compared with the scalar overload on component i (identical bits for selection/rounding/comparison/integer/single-libm-call functions, value equality for arithmetic operators, rounding tolerance for mix/smoothstep/mod/fma, 2^-8 relative for lowp inversesqrt). Matrix abs/mix/equal on all nine shapes.',
    rule='thorough tier: the lattices grow to ~430 float / ~470 double values (every 8th binade edge with 4 mantissa patterns, ties k+0.5, decimal and trigonometric constants), ALL 256 values of the 8-bit types (binary operations complete: 65536 pairs), ~250-420 patterns for 16/32/64-bit integers, ternary operations on the first 173 (119 for integers) values cubed, two compilers. quick tier: VALUES<T>: 77 float / 80 double special values (+-0, subnormals, ties, 2^23, 2^24, 2^31, max, inf, quiet and signalling NaN ...), 23 integer patterns per width (0, 1, extremes, alternating and run patterns); unary ops sweep VALUES, binary VALUES^2, ternary VALUES^3; lane k of a vector receives the tuple at rotated indices so neighbouring lanes always hold different tuples. Non-trivial = tuple inside the operator domain (no signed overflow, no division by zero, shift count < width).'),
